@@ -787,7 +787,9 @@ class _ExecutorManagerThread(threading.Thread):
                     f"joining {p.name} when processing {p.pid} as result_item"
                 )
                 p.join()
-                if p.exitcode != 0:
+                if p.exitcode is not None and p.exitcode != 0:
+                    # (The exit code is unknown -- None -- when the program
+                    # ignores SIGCHLD: nothing can be concluded then.)
                     # The worker announced a clean exit but died abruptly
                     # before it was over: the locks of the queues may be left
                     # in a dirty state, the executor cannot be trusted anymore.
@@ -1008,7 +1010,7 @@ class _ExecutorManagerThread(threading.Thread):
                     mp.util.debug(f"joining process {p.name} with pid {pid}")
                     p.join()
                     n_joined_processes += 1
-                    if p.exitcode != 0:
+                    if p.exitcode is not None and p.exitcode != 0:
                         n_joined_processes += len(self.processes)
                         self.kill_workers(
                             reason="a worker died abruptly during shutdown"
